@@ -410,7 +410,8 @@ MutFacts(fmt, muts) ==
       coords_in_shape |-> ~has(LAMBDA m : m \in {"coord:row_out", "coord:col_out", "coord:negative", "coord:obs_index_out",
                                                   "coord:samp_index_out", "coord:obs_index_negative"}),
       element_types_ok |-> ~has(LAMBDA m : Pre(m, "type:") \/ m \in {"coord:index_text", "coord:value_text", "coord:malformed",
-                                                                        "coord:col_index_float", "coord:row_index_float", "coord:col_index_text"}),
+                                                                        "coord:col_index_float", "coord:row_index_float", "coord:col_index_text",
+                                                                        "coord:row_index_bool", "coord:col_index_bool", "coord:value_bool"}),
       ids_nonempty_unique |-> ~has(LAMBDA m : m \in {"ids:dup_row", "ids:dup_col", "ids:blank_row", "ids:blank_col",
                                                       "ids:dup_obs", "ids:dup_samp", "ids:blank_obs", "ids:blank_samp"}),
       metadata_object_or_null |-> ~has(LAMBDA m : m \in {"md:row_text", "md:col_list", "md:row_number"}),
@@ -861,7 +862,10 @@ StepsFor(call, h, recv, res, full) ==
                                       \cup {FirstOf(ids) \o <<"zz">>}
                                       \cup (IF ids = <<>> THEN {} ELSE {<<ids[Len(ids)] \o "~x">>, RestOf(ids) \o <<ids[1] \o "~0">>})
                        ELSE ({FirstOf(ids), Reverse(RestOf(ids))}
-                             \cup (IF Len(ids) >= 9 THEN {<<ids[2], ids[9]>>, <<ids[9], ids[3], ids[1]>>} ELSE {})) \ {<<>>}
+                             \cup (IF Len(ids) >= 9 THEN {<<ids[2], ids[9]>>, <<ids[9], ids[3], ids[1]>>} ELSE {})
+                             \cup (IF Len(ids) >= 12 THEN {<<ids[3], ids[11]>>, <<ids[12], ids[2], ids[11]>>,
+                                                           <<ids[1], ids[2], ids[3], ids[10], ids[11], ids[12]>>}
+                                   ELSE {})) \ {<<>>}
            IN {St(call, recv, res, [variant |-> v, fmt |-> IF v \in {"parse_table_json", "parse_table_json_lines", "cli_subset_json"}
                                                             THEN "json" ELSE "hdf5",
                                     ids |-> s, axis |-> ax]) :
